@@ -22,6 +22,7 @@ address.remove(attempts-or-0 % len) (rotation), dial_peer gets (that address, So
 sender) and pending_dials gets (that id, receiver) of the same oneshot channel; the number of dials
 started is min(eligible, max_outstanding.saturating_sub(pending_connections.len())); the tick period is
 the configured interval plus at most 1 s of jitter and the tick arm runs the connectivity check.
+Config accessors feeding the dialer (interval, backoff step, backoff cap, connecting cap) are pure projections of their own field.
 """
 TRUSTED = ["tokio interval ticks no earlier than its period", "std Instant/Duration arithmetic"]
 NOT_DECIDED = ["every timing bound of the property (one interval + jitter, min(max-backoff, k×step) + two intervals)", "that dialing eventually succeeds",
